@@ -19,7 +19,8 @@ pub fn panic_signature(msg: &str) -> String {
         None => (msg, ""),
     };
     let loc = loc.rsplit_once("/src/").map(|x| x.1).unwrap_or(loc);
-    let words: String = text.chars().filter(|c| !c.is_ascii_digit()).take(60).collect();
+    let flat: String = text.split_whitespace().collect::<Vec<_>>().join(" ");
+    let words: String = flat.chars().filter(|c| !c.is_ascii_digit()).take(60).collect();
     format!("{}|{}", loc, words.trim())
 }
 
